@@ -190,19 +190,20 @@ theorem reload_equiv {cfg : Config} {β : Type} (F : State → Ctx → β)
   cases hc2
   rfl
 
-/-- **Reads stay in range (partial).** Every validator index the context holds in its active lists and proposer
-list is below the length the registry — and hence the `EffectiveBalances` slice — had at the last rotation
-(`st0`: the state right after the last rotation, `st`: any later state of the same epoch `N`, related by
-`EpochWrites`): validators added since then are not in any of the three active sets. So a live context whose
-effective-balance slice was not extended by a deposit could not make the transition read out of range.
-*Partial*: the entries of `shuffling` and `committees` are values `active[compute_shuffled_index …]`, hence members
-of the active list as well, but that needs the range property of the swap-or-not index (C06) on the
-specification's loop and is not proved here. -/
-theorem ctx_reads_in_range_partial {cfg : Config} {N : Nat} {st0 st : State} {c : Ctx}
+/-- **Reads stay in range.** Every validator index the context holds — in its three active lists, its three
+shuffled lists, every committee of the three epochs, and the proposer list — is below the length the registry (and
+hence the `EffectiveBalances` slice) had at the last rotation (`st0`: the state right after the last rotation, `st`:
+any later state of the same epoch `N`, related by `EpochWrites`): validators added since then are not in any of
+the three active sets, and shufflings, committees and proposers only hold members of the active sets. So the
+transition never reads the per-validator caches of the context beyond the length they had at the last rotation
+(which is why the pre-fix `EffectiveBalances` defect could not change transition results). -/
+theorem ctx_reads_in_range {cfg : Config} {N : Nat} {st0 st : State} {c : Ctx}
     (hc : ctxOf cfg st = .ok c) (hN : get_current_epoch cfg st = N) (hw : EpochWrites cfg N st0 st)
     (hmax : 1 ≤ cfg.MAX_SEED_LOOKAHEAD) (hfar : N + 1 < FAR_FUTURE_EPOCH) :
-    (∀ i ∈ c.prev.active, i < st0.validators.length) ∧ (∀ i ∈ c.cur.active, i < st0.validators.length) ∧
-    (∀ i ∈ c.next.active, i < st0.validators.length) ∧ (∀ i ∈ c.proposers.proposers, i < st0.validators.length) := by
+    (∀ sh ∈ [c.prev, c.cur, c.next],
+      (∀ i ∈ sh.active, i < st0.validators.length) ∧ (∀ i ∈ sh.shuffling, i < st0.validators.length) ∧
+      (∀ slot ∈ sh.committees, ∀ committee ∈ slot, ∀ i ∈ committee, i < st0.validators.length)) ∧
+    (∀ i ∈ c.proposers.proposers, i < st0.validators.length) := by
   obtain ⟨h1, h2, h3, h4, _⟩ := ctxOf_ok hc
   have key : ∀ e, e ≤ N + 1 → ∀ i ∈ get_active_validator_indices st e, i < st0.validators.length := by
     intro e he i hi
@@ -211,16 +212,26 @@ theorem ctx_reads_in_range_partial {cfg : Config} {N : Nat} {st0 st : State} {c 
   have hP : get_previous_epoch cfg st ≤ N + 1 := by
     unfold get_previous_epoch; rw [hN]; dsimp only [GENESIS_EPOCH]; by_cases h0 : N = 0 <;> simp [h0] <;> omega
   rw [hN] at h1 h3 h4
-  have a1 := (shufflingOf_fields h1).2
-  have a2 := (shufflingOf_fields h2).2
-  have a3 := (shufflingOf_fields h3).2
-  refine ⟨?_, ?_, ?_, ?_⟩
-  · rw [a2]; exact key _ hP
-  · rw [a1]; exact key _ (by omega)
-  · rw [a3]; exact key _ (by omega)
+  have one : ∀ {e : Nat} {sh : ShufflingEpoch}, e ≤ N + 1 → shufflingOf cfg st e = .ok sh →
+      (∀ i ∈ sh.active, i < st0.validators.length) ∧ (∀ i ∈ sh.shuffling, i < st0.validators.length) ∧
+      (∀ slot ∈ sh.committees, ∀ committee ∈ slot, ∀ i ∈ committee, i < st0.validators.length) := by
+    intro e sh he hsh
+    have ha := (shufflingOf_fields hsh).2
+    obtain ⟨m1, m2⟩ := shufflingOf_mem hsh
+    refine ⟨?_, ?_, ?_⟩
+    · rw [ha]; exact key e he
+    · intro i hi; exact key e he i (m1 i hi)
+    · intro slot hs committee hcm i hi; exact key e he i (m2 slot hs committee hcm i hi)
+  refine ⟨?_, ?_⟩
+  · intro sh hsh
+    simp only [List.mem_cons, List.mem_nil_iff, or_false] at hsh
+    rcases hsh with rfl | rfl | rfl
+    · exact one hP h2
+    · exact one (by omega) h1
+    · exact one (by omega) h3
   · intro i hi
     have := proposersOf_mem h4 i hi
-    rw [a1] at this
+    rw [(shufflingOf_fields h1).2] at this
     exact key _ (by omega) i this
 
 /-- non-vacuity: a state is related to itself (nothing written), for every epoch -/
